@@ -292,17 +292,24 @@ def seq_equality_rule(rep, fn):
         return None
 
     nexts = {'S': [], 'Q': []}
+    alls = {'S': [], 'Q': []}
     for b, t in fn.calls():
         if (t.get('callee') or '').endswith('Iterator::next') and t['args']:
             p = op_place(t['args'][0])
             o = origin(p['l']) if p is not None else None
             if o:
                 nexts[o].append((b, t))
+        if (t.get('callee') or '').endswith('Iterator::all') and t['args']:
+            # `seq.all(|x| ..)` answers true only after it has walked the whole sequence
+            p = op_place(t['args'][0])
+            o = origin(p['l']) if p is not None else None
+            if o:
+                alls[o].append((b, t))
     uses_eq = any((t.get('callee') or '').endswith(('Iterator::eq', 'Iterator::eq_by', 'Iterator::cmp')) for b, t in fn.calls())
     if uses_eq and not (nexts['S'] or nexts['Q']):
         rep.oblige('N5b', fn.name, ok=True, sample={'fn': fn.name, 'how': 'compares with Iterator::eq'})
         return
-    if not nexts['S'] or not nexts['Q']:
+    if not (nexts['S'] or alls['S']) or not (nexts['Q'] or alls['Q']):
         rep.oblige('N5b', fn.name, ok=False, nontrivial=True)
         rep.violation('N5b', vkey('N5b', fn.name, 'no-lockstep', ''), fn.loc(fn.span),
                       '%s does not walk both the stored and the requested name (stored: %d next() sites, requested: %d)'
@@ -336,6 +343,24 @@ def seq_equality_rule(rep, fn):
                             src_l = None
                     if src_l == D:
                         encodes[(bi, tt['dest']['l'])] = cls
+    from analyses import nonzero_targets
+    for cls, lst in alls.items():
+        for b, t in lst:
+            D = t['dest']['l']
+            for bi in fn.reachable():
+                tt = fn.blocks[bi]['term']
+                if tt['k'] != 'switch':
+                    continue
+                dp = op_place(tt['discr'])
+                src_l = dp['l'] if dp is not None and not dp['p'] else None
+                seen = 0
+                while src_l is not None and src_l != D and seen < 6:
+                    dd = defs.get(src_l)
+                    seen += 1
+                    src_l = (op_place(dd[1]['a']) or {}).get('l') if dd and dd[0] == 'stmt' and dd[1]['k'] == 'use' else None
+                if src_l == D:
+                    # every arm but the `true` one is cut: only `all(..) == true` has seen the end
+                    exhaust[cls] |= {(bi, x) for x in nonzero_targets(tt)}
     problems = []
     n_true = 0
     for bi in sorted(fn.reachable()):
